@@ -131,8 +131,12 @@ def run(ctx):
                 pool = list(range(n if kind != "Match" else max(n - 1, 0)))
                 ts = rng.sample(pool, min(m, len(pool)))
                 rest = [q for q in range(n) if q not in ts and (kind != "Match" or all(q != t + 1 for t in ts))]
-                gates.insert(rng.randrange(len(gates) + 1), {"g": "param", "kind": kind, "vals": [float2bits(rng.uniform(-3, 3)) for _ in range(3)], "ts": ts,
-                                                             "cs": rng.sample(rest, rng.randrange(0, min(2, len(rest)) + 1))})
+                pcs = rng.sample(rest, rng.randrange(0, min(2, len(rest)) + 1))
+                if rng.random() < 0.3:                         # a parametric gate addressing a qubit outside the circuit: as a control or as a target
+                    far = rng.choice([n, n + 1, 63, 64, 2**40])
+                    if rng.random() < 0.6 or not ts: pcs = pcs + [far]
+                    else: ts = ts[:-1] + [far]
+                gates.insert(rng.randrange(len(gates) + 1), {"g": "param", "kind": kind, "vals": [float2bits(rng.uniform(-3, 3)) for _ in range(3)], "ts": ts, "cs": pcs})
             nm = sum(1 for g in gates if g["g"] == "meas")
             ccases.append({"op": "circuit", "mode": "exec", "n": n, "cn": n if rng.random() < 0.8 else n + rng.choice([1, 2]), "v": rand_vec(rng, n, "normalised"),
                            "gates": gates, "draws": [float2bits(0.37)] * nm, "split": 0, "thr": rng.choice([10, 1])})
